@@ -21,6 +21,7 @@ def showAns (a : Ans) (r : Option (Option Nat)) : String :=
   | .ok => "ok"
   | .val v => s!"val {v}" ++ showRef r
   | .absent => "absent" ++ showRef r
+  | .rejected => "toobig"
   | .bad => "bad"
 
 def parse (ws : List String) : Option Op :=
@@ -35,6 +36,11 @@ def parse (ws : List String) : Option Op :=
     | some k, some v => some (.ins k v)
     | _, _ => none
   | ["del", k] => (num? k).map .del
+  | ["insbig", k, v] => match num? k, num? v with
+    | some k, some _ => some (.insfail k)
+    | _, _ => none
+  | ["getx", k] => (num? k).map .getn
+  | ["gety", k] => (num? k).map .getr
   | ["commit"] => some .commit
   | ["discard"] => some .discard
   | ["bcommit"] => some .bcommit
@@ -54,8 +60,53 @@ of the block being executed) -/
 structure DState where
   w : World := {}
   ew : Option (World × Nat) := none
+  /-- blocks whose computation (`cblock`) was interrupted: hash ↦ (parent, script) -/
+  pending : List (Nat × Nat × List (List Op)) := []
 
 def stepW (w : World) (op : Op) : World × Ans := ZChain.StateCache.step {} w op
+
+/-- one primitive of a scripted transaction: `i:k:v` insert, `d:k` delete (an absent key is tolerated), `g:k` read,
+`x:k` / `y:k` reads that cannot use a hit, `b:k:v` an insert the trie refuses (tolerated) -/
+def parsePrim (w : String) : Option Op :=
+  match w.splitOn ":" with
+  | ["i", k, v] => match num? k, num? v with
+    | some k, some v => some (.ins k v)
+    | _, _ => none
+  | ["d", k] => (num? k).map .del
+  | ["g", k] => (num? k).map .get
+  | ["x", k] => (num? k).map .getn
+  | ["y", k] => (num? k).map .getr
+  | ["b", k, v] => match num? k, num? v with
+    | some k, some _ => some (.insfail k)
+    | _, _ => none
+  | _ => none
+
+def parseTxn (w : String) : Option (List Op) := (w.splitOn ",").mapM parsePrim
+
+def parseScript (w : String) : Option (List (List Op)) := (w.splitOn ";").mapM parseTxn
+
+/-- where a scripted block is interrupted: `-` never, `c<i>` / `f<i>` at transaction `i` (cancelled / failed) -/
+def parseStop (w : String) : Option (Option (Nat × String)) :=
+  if w = "-" then some none
+  else if w.startsWith "c" then (num? (w.drop 1).toString).map fun i => some (i, "cancelled")
+  else if w.startsWith "f" then (num? (w.drop 1).toString).map fun i => some (i, "failed")
+  else none
+
+def runTxns (w : World) (txns : List (List Op)) : World :=
+  txns.foldl (fun w ops =>
+    let w1 := (stepW w .tx).1
+    let w2 := ops.foldl (fun w op => (stepW w op).1) w1
+    (stepW w2 .commit).1) w
+
+/-- `ComputeState` of block `h` on `p`: all transactions then the block cache is committed, or — interrupted at
+transaction `i` — the transactions before `i` and then the block execution is dropped -/
+def computeBlock (w : World) (h p : Nat) (txns : List (List Op)) (stop : Option (Nat × String)) : World × String :=
+  let w0 := (stepW w (.begin_ h p)).1
+  match stop with
+  | some (i, why) =>
+    if i < txns.length then ((stepW (runTxns w0 (txns.take i)) .babort).1, why)
+    else ((stepW (runTxns w0 txns) .bcommit).1, "ok")
+  | none => ((stepW (runTxns w0 txns) .bcommit).1, "ok")
 
 /-- a contract call = one transaction: `tx`, the contract's operation, then `commit` (applied) or `discard`
 (the contract failed: chargeable error, the transaction cache is dropped) -/
@@ -70,6 +121,9 @@ def estep (ew : World × Nat) (ws : List String) : Option ((World × Nat) × Str
   | ["eblock"] =>
     let w1 := (stepW w .bcommit).1
     some (((stepW w1 (.begin_ (n + 1) n)).1, n + 1), "ok")
+  | ["ewritebig", k, v] => match num? k, num? v with
+    | some k, some _ => let (w', _, _) := ecall w (.insfail k) (fun _ => false); some ((w', n), "ok")
+    | _, _ => none
   | ["ewrite", k, v] => match num? k, num? v with
     | some k, some v => let (w', _, _) := ecall w (.ins k v) (fun _ => false); some ((w', n), "ok")
     | _, _ => none
@@ -93,6 +147,28 @@ def estep (ew : World × Nat) (ws : List String) : Option ((World × Nat) × Str
 def step (s : DState) (ws : List String) : DState × String :=
   match ws with
   | ["reset"] => ({}, "ok")
+  | ["scenario", name, seed] =>
+    -- self-contained scenarios on the real types (validated on the real code only, like `typecheck`)
+    if (name = "partitions-oversize") ∧ (num? seed).isSome then (s, "ok") else (s, "bad-op")
+  | ["cblock", h, p, stop, script] =>
+    match num? h, num? p, parseStop stop, parseScript script with
+    | some h, some p, some stop, some txns =>
+      if s.w.cur.isSome || (s.w.tries.get p).isNone || (s.w.tries.get h).isSome || (s.pending.any (·.1 == h)) then (s, "bad")
+      else
+        let (w', out) := computeBlock s.w h p txns stop
+        ({ s with w := w', pending := if out = "ok" then s.pending else (h, p, txns) :: s.pending }, out)
+    | _, _, _, _ => (s, "bad-op")
+  | ["cretry", h] =>
+    match num? h with
+    | some h =>
+      match s.pending.find? (·.1 == h) with
+      | some (_, p, txns) =>
+        if s.w.cur.isSome then (s, "bad")
+        else
+          let (w', out) := computeBlock s.w h p txns none
+          ({ s with w := w', pending := s.pending.filter (·.1 != h) }, out)
+      | none => (s, "bad")
+    | none => (s, "bad-op")
   | ["ereset"] => ({ s with ew := some ((stepW {} (.begin_ 1 0)).1, 1) }, "ok")
   | ["typecheck", t, seed] =>
     -- part 2 of the harness (Clone/CopyFrom of the real cacheable types): no counterpart in the model,
@@ -102,7 +178,7 @@ def step (s : DState) (ws : List String) : DState × String :=
     match ws with
     | [] => (s, "bad-op")
     | cmd :: _ =>
-      if cmd == "eblock" || cmd == "ewrite" || cmd == "ewritefail" || cmd == "edel" || cmd == "eread" then
+      if cmd == "eblock" || cmd == "ewritebig" || cmd == "ewrite" || cmd == "ewritefail" || cmd == "edel" || cmd == "eread" then
         match s.ew with
         | none => (s, "bad")
         | some ew =>
